@@ -60,6 +60,7 @@ type Exec struct {
 	steps    int
 	MaxSteps int
 	curFn    string
+	gotos    map[string][]*State // forward gotos waiting for their label (by LabelDecl id), per function activation
 	keepCond *cfront.Node // conditional operator whose alternatives are kept apart (operand of a return)
 }
 
@@ -155,7 +156,12 @@ func (x *Exec) Run(fn *cfront.Node) {
 		}
 	}
 	x.stack = []string{fn.Name}
+	x.gotos = nil
 	fl := x.execStmt(body, []*State{st})
+	if len(x.gotos) > 0 {
+		x.problem(fn, "goto in %s to a label that is not ahead in an enclosing block", fn.Name)
+		x.gotos = nil
+	}
 	for _, s := range fl.next {
 		if s != nil && !s.dead {
 			x.problem(fn, "control can reach the end of %s without a return", fn.Name)
@@ -289,17 +295,37 @@ func (x *Exec) execStmt(n *cfront.Node, in []*State) flow {
 		var out flow
 		cur := in
 		for _, c := range n.Inner {
+			// a label ahead: the states that jumped to it join the fall-through here
+			if c.Kind == "LabelStmt" && len(x.gotos[c.DeclID]) > 0 {
+				cur = x.merge(append(append([]*State(nil), cur...), x.gotos[c.DeclID]...))
+				delete(x.gotos, c.DeclID)
+			}
+			if len(live(cur)) == 0 {
+				if len(x.gotos) == 0 {
+					break
+				}
+				continue // nothing flows here, but a later label of this block may be a goto target
+			}
 			f := x.execStmt(c, cur)
 			out.brk = append(out.brk, f.brk...)
 			out.cont = append(out.cont, f.cont...)
 			out.ret = append(out.ret, f.ret...)
 			cur = f.next
-			if len(cur) == 0 {
-				break
-			}
 		}
 		out.next = cur
 		return out
+	case "LabelStmt":
+		return x.execStmt(n.Kid(len(n.Inner)-1), in)
+	case "GotoStmt":
+		if n.TargetID == "" {
+			x.problem(n, "goto without a resolvable label")
+			return flow{}
+		}
+		if x.gotos == nil {
+			x.gotos = map[string][]*State{}
+		}
+		x.gotos[n.TargetID] = append(x.gotos[n.TargetID], in...)
+		return flow{}
 	case "DeclStmt":
 		cur := in
 		for _, d := range n.Inner {
@@ -373,8 +399,7 @@ func (x *Exec) execStmt(n *cfront.Node, in []*State) flow {
 	case "ForStmt":
 		return x.execFor(n, in)
 	case "WhileStmt", "DoStmt":
-		x.problem(n, "%s loop: no constant trip count can be established", n.Kind)
-		return flow{next: in}
+		return x.execWhile(n, in)
 	case "SwitchStmt":
 		return x.execSwitch(n, in)
 	default:
@@ -385,8 +410,19 @@ func (x *Exec) execStmt(n *cfront.Node, in []*State) flow {
 				next = append(next, r.st)
 			}
 		}
-		return flow{next: x.merge(next)}
+		return flow{next: x.mergeFew(next)}
 	}
+}
+
+// mergeFew: after a plain statement a handful of states (the distinct outcomes an inlined helper returned: NULL /
+// pointer, -1 / 0) are kept apart until the next control-flow join, so that a test of the stored result
+// (`p = find(...); if (!p) return`) still separates the outcome that carries the helper's bounds facts.
+func (x *Exec) mergeFew(ss []*State) []*State {
+	ss = live(ss)
+	if len(ss) <= 3 {
+		return ss
+	}
+	return x.merge(ss)
 }
 
 func (x *Exec) declVar(d *cfront.Node, in []*State) []*State {
@@ -406,7 +442,7 @@ func (x *Exec) declVar(d *cfront.Node, in []*State) []*State {
 		}
 		out = append(out, x.initInto(st, reg, 0, d.Desugared(), init)...)
 	}
-	return x.merge(out)
+	return x.mergeFew(out)
 }
 
 // initInto stores the value of an initialiser expression into region+off.
@@ -1170,4 +1206,51 @@ func canonAtom(a Atom) Atom {
 	a.L, a.R = a.R, a.L
 	a.LC, a.RC = a.RC, a.LC
 	return a
+}
+
+// execWhile unrolls a while / do-while loop by evaluating its condition in the abstract state: the loop is followed
+// for as long as the condition can still hold, up to a fixed number of rounds.  A loop whose counter is a constant
+// along the path (`while (left > 0 && a[left-1] == b[left-1]) left--`) terminates by itself; one whose condition never
+// becomes false within the bound is reported as not modelled (never silently cut off).
+func (x *Exec) execWhile(n *cfront.Node, in []*State) flow {
+	const maxRounds = 70
+	var out flow
+	cond, body := n.Kid(0), n.Kid(1)
+	if n.Kind == "DoStmt" {
+		body, cond = n.Kid(0), n.Kid(1)
+	}
+	cur := in
+	var exits []*State
+	first := n.Kind == "DoStmt"
+	for round := 0; ; round++ {
+		var t []*State
+		if first {
+			t = cur
+			first = false
+		} else {
+			for _, st := range cur {
+				tt, ff := x.branch(cond, st)
+				t = append(t, tt...)
+				exits = append(exits, ff...)
+			}
+		}
+		t = live(t)
+		if len(t) == 0 {
+			break
+		}
+		if round >= maxRounds {
+			x.problem(n, "%s loop: the condition can still hold after %d rounds (no bound established)", n.Kind, maxRounds)
+			exits = append(exits, t...)
+			break
+		}
+		fl := x.execStmt(body, x.merge(t))
+		out.ret = append(out.ret, fl.ret...)
+		exits = append(exits, fl.brk...)
+		cur = x.merge(append(append([]*State(nil), fl.next...), fl.cont...))
+		if len(live(cur)) == 0 {
+			break
+		}
+	}
+	out.next = x.merge(exits)
+	return out
 }
